@@ -11,6 +11,7 @@ import z3
 from harness import c02_objective as c02
 from harness import c13_statistics as c13
 from harness import optim
+from harness import pipeline as pl
 from symx import core
 from symx.env import Patcher
 from symx.env import install_numeric_shims
@@ -68,8 +69,11 @@ def configs(tier, seed):
         ("opt-fixed-nonneg", {"k1": {}, "k2": {"vary": False}, "sc1": {"vary": False, "non-negative": True}}, {}),
         ("opt-expression-lowerbound", {"k1": {"min": "sym"}, "k2": {"non-negative": True}, "sc1": {"max": "sym"}}, {"e1": "$k1 * 2 + $sc1"}),
         ("opt-fixed-first-nonneg-zero-min", {"k1": {"vary": False}, "k2": {"non-negative": True, "min": 0.0, "max": "sym"}, "sc1": {}}, {"e1": "$k2 + 1"}),
+        # a chain of expression parameters declared before what they reference
+        ("opt-expression-chain-topdown", {"k1": {}, "k2": {"vary": False}, "sc1": {}}, {"ea": "$eb * 2", "eb": "$ec + $k2", "ec": "$k1 * 3"}),
     ]):
-        out.append(dict(base, name=name, kind="optimize", param_options=opts, expr_params=exprs, K=2 if tier == "quick" else 4))
+        out.append(dict(base, name=name, kind="optimize", param_options=opts, expr_params=exprs, K=2 if tier == "quick" else 4,
+                        expr_first=name.endswith("topdown")))
     return out
 
 
@@ -317,7 +321,24 @@ def _run_optimize(cfg, rec):
             ps = scheme.parameters.copy()
             ps.set_from_history(hist, r)
             recs.append({p.label: p.value for p in ps.all()})
+        # the recorded values themselves (what the model was evaluated with), when no logarithmic transformation is involved
+        if not any(o.get("non-negative") for o in opts.values()):
+            for r in range(hist.number_of_records):
+                recs.append(dict(zip(hist.parameter_labels[1:], list(hist.get_parameters(r))[1:])))
+        recs += ctx.log.get("seen", [])
         return recs
+
+    def seen_hook(mc, dm):
+        # the parameter values at the moment the model is evaluated (every matrix calculation of every objective evaluation)
+        cur = core.Ctx.cur
+        opt_ = cur.log.get("opt") if cur is not None and isinstance(cur.log, dict) else None
+        if opt_ is not None and cfg.get("expr_params"):
+            snap = {p_.label: p_.value for p_ in opt_._parameters.all()}
+            seen = cur.log.setdefault("seen", [])
+            if len(seen) < 8:
+                seen.append(snap)
+
+    pl.FAULT_HOOK["hook"] = seen_hook
 
     for ctx, src, stubs, kind, out in c13.symbolic_optimize(cfg, rec, K=cfg.get("K", 2), after=after, max_paths=600, well_conditioned=True):
         rec.witness_path(ctx)
@@ -345,6 +366,15 @@ def _run_optimize(cfg, rec):
         sets = [("optimized_parameters", {p.label: p.value for p in res.optimized_parameters.all()})]
         sets += [(f"history record {r}", rr) for r, rr in enumerate(recs)]
         for name, vals in sets:
+            exprs_ = cfg.get("expr_params", {})
+            if exprs_ and all(lab in vals for lab in exprs_):
+                denoted_ = pl.with_expression_values(cfg, {lab: zreal(v) for lab, v in vals.items() if lab not in exprs_})
+                for lab in exprs_:
+                    v_ = vals[lab]
+                    items.append(("in every history record and in the result an expression parameter has the value of its definition on "
+                                  "that record's values (the model is evaluated with mutually consistent parameters)",
+                                  core.cross_eq(zreal(v_), denoted_[lab]) if isinstance(v_, SymReal) or v_ == v_ else z3.BoolVal(False),
+                                  "optimize:expression-value"))
             for lab, val in vals.items():
                 o = opts.get(lab, {})
                 p0 = scheme.parameters.get(lab)
@@ -367,6 +397,17 @@ def _run_optimize(cfg, rec):
                     kind_ = "result" if name == "optimized_parameters" else "history"
                     items.append((f"free parameters stay within [minimum, maximum] (non-negative ones positive) in the {kind_}",
                                   z3.And(conds), f"optimize:bounds-violated-{kind_}"))
+        cov_ = np.asarray(res.covariance_matrix, dtype=object)
+        jac_ = np.asarray(res.jacobian, dtype=object)
+        n_free_ = len(free_labels)
+        items.append(("free-parameter labels, Jacobian columns and covariance rows / columns have the same length and order (one per "
+                      "free parameter, also when the optimiser reports active bounds)",
+                      z3.BoolVal(cov_.shape == (n_free_, n_free_) and jac_.ndim == 2 and jac_.shape[1] == n_free_
+                                 and list(res.free_parameter_labels) == free_labels), "optimize:ordering-shapes"))
+        for lab in free_labels:
+            se_ = res.optimized_parameters.get(lab).standard_error
+            items.append(("every free parameter carries its own standard error", z3.BoolVal(isinstance(se_, SymReal) or se_ == se_),
+                          "optimize:standard-error-missing"))
         for lab, expr in cfg.get("expr_params", {}).items():
             p = res.optimized_parameters.get(lab)
             items.append(("expression parameters keep their definition and are never handed to the optimiser",
@@ -375,6 +416,7 @@ def _run_optimize(cfg, rec):
             rec.check(ctx, n_, g, fp, wit, extra=ax)
         rec.want_sample() and rec.sample({"free": free_labels, "records": len(recs), "pc": [str(c)[:80] for c in ctx.pc][:3]})
         rec.validate("optimize", dict(c02.DefaultEnv()), {"free": free_labels})
+    pl.FAULT_HOOK.pop("hook", None)
 
 
 # ------------------------------------------------------------------------------------------------ float side
@@ -453,14 +495,40 @@ def replay(data):
         return False, "vector ok"
     # optimize
     for e in (c02.salted("r1"), c02.DefaultEnv(dict(env))):
+        seen = []
+
+        def seen_hook(mc, dm, seen=seen):
+            o_ = pl.FAULT_HOOK.get("opt")  # the optimizer under test (set by float_optimize)
+            if o_ is not None and len(seen) < 12:
+                seen.append({p_.label: p_.value for p_ in o_._parameters.all()})
+
+        if cfg.get("expr_params"):
+            pl.FAULT_HOOK["hook"] = seen_hook
         try:
-            res, ls = c13.float_optimize(cfg, e, K=cfg.get("K", 2))
+            res, ls = c13.float_optimize(cfg, e, K=max(3, cfg.get("K", 2)))
         except Exception as ex:  # noqa: BLE001
             return True, f"config {cfg['name']}: optimize raised {type(ex).__name__}: {ex}"
+        finally:
+            pl.FAULT_HOOK.pop("hook", None)
+        for snap in seen:
+            plain = {k_: v_ for k_, v_ in snap.items() if k_ not in cfg["expr_params"]}
+            want_ = pl.with_expression_values(cfg, plain)
+            for lab in cfg["expr_params"]:
+                if not abs(snap[lab] - want_[lab]) <= 1e-9 * max(1.0, abs(want_[lab])):
+                    return True, (f"config {cfg['name']}: the model was evaluated with expression parameter {lab} = {snap[lab]} while its "
+                                  f"definition {cfg['expr_params'][lab]!r} gives {want_[lab]} on the current values {plain}")
         free = optim.free_parameter_spec(cfg)
         if list(res.free_parameter_labels) != free:
             return True, f"config {cfg['name']}: free parameters {res.free_parameter_labels}, expected {free}"
         opts = cfg.get("param_options", {})
+        cov_ = np.asarray(res.covariance_matrix)
+        if cov_.shape != (len(free), len(free)) or np.asarray(res.jacobian).shape[1] != len(free):
+            return True, (f"config {cfg['name']}: {len(free)} free parameters {free}, Jacobian with {np.asarray(res.jacobian).shape[1]} columns, "
+                          f"covariance of shape {cov_.shape} (optimiser reported active_mask {getattr(ls, 'active_mask', None)})")
+        for lab in free:
+            se_ = res.optimized_parameters.get(lab).standard_error
+            if se_ != se_:
+                return True, f"config {cfg['name']}: free parameter {lab} has no standard error (active_mask {getattr(ls, 'active_mask', None)})"
         init = res.scheme.parameters
         hist = res.parameter_history
         sets = [res.optimized_parameters]
